@@ -20,7 +20,7 @@ ASSUMPTIONS = ["socket.send on non-empty data returns at least 1",
                "enable_multithread=True (default)"]
 
 
-def w_short(n, nwrites):
+def w_short(n, nwrites, via=None):
     """send of an n-byte symbolic binary payload; the transport accepts symbolic counts.  nwrites=0: unbounded
     number of writes (every composition of the frame length)"""
     quiet_logging()
@@ -37,13 +37,13 @@ def w_short(n, nwrites):
         rem -= a
         j += 1
     sock = FakeSock(accept=accept)
-    ws = new_ws(sock, get_mask_key=KeySource([key]))
+    ws = new_ws(sock, via=via, get_mask_key=KeySource([key]))
     try:
         ret = ws.send_binary(payload)
     except (sx.Control, sx.ConcreteFailure, sx.ReplayMismatch):
         raise
     except Exception as e:
-        sx.require(False, "send raised %s under short writes" % type(e).__name__, n=n)
+        sx.require(False, "send raised %s under short writes" % type(e).__name__, n=n, via=str(via))
         return
     wire = sock.wire()
     sx.require(len(wire) == F, "total bytes accepted == frame length (nothing dropped, nothing repeated)", n=n, got=len(wire))
@@ -511,6 +511,9 @@ def obligations(tier):
     short += [dict(n=n, nwrites=3) for n in ((10, 60, 74, 120, 126, 194) if thorough else (10, 40, 74))]
     if thorough:
         short += [dict(n=n, nwrites=4) for n in (20, 34)]
+    # the same through the library's Dispatcher / SSLDispatcher objects (the write path of every WebSocketApp connection)
+    short += [dict(n=n, nwrites=0, via=v) for n in (0, 2, 5) for v in ("dispatcher", "ssl-dispatcher")]
+    short += [dict(n=74, nwrites=3, via=v) for v in ("dispatcher", "ssl-dispatcher")]
     osend = [dict(t=t, n=2, nwrites=w) for t in (2, 3, 4) for w in ((1, 2, 3) if t < 4 or thorough else (1, 2))]
     if not thorough:
         osend = [s for s in osend if not (s["t"] == 3 and s["nwrites"] == 3)]
@@ -518,9 +521,9 @@ def obligations(tier):
     return [
         Obligation("W-short", w_short, short,
                    bounds="ALL short-write patterns (every composition of the frame length) for frames <= %d bytes; all patterns of <=3 writes "
-                          "for frames up to %d bytes; payload and key symbolic" % (14 if thorough else 12, 200 if thorough else 80),
+                          "for frames up to %d bytes; payload and key symbolic; plain WebSocket and WebSocket writing through Dispatcher / SSLDispatcher" % (14 if thorough else 12, 200 if thorough else 80),
                    must_cover=["short", "multi-write"], budget_s=2400 if thorough else 900,
-                   kernel=["WebSocket.send_frame", "WebSocket._send", "_socket.send"]),
+                   kernel=["WebSocket.send_frame", "WebSocket._send", "_socket.send", "DispatcherBase.send"]),
         Obligation("W-order-send", w_order_send, osend,
                    bounds="t = 2..4 sender threads, each frame written in 1..3 pieces (symbolic split points), ALL interleavings of the extracted "
                           "lock/write events (no preemption bound)", must_cover=["order-send", "multi-write-trace"], budget_s=1800,
